@@ -44,6 +44,8 @@ def search(ctx, broken):
         c.driver = None
         found += ce.explore_cache(c, PROPS, 400, steps=7)["violations"]
         if not found:
+            found += ce.explore_cache(c, PROPS, 400, steps=7, stress=True)["violations"]
+        if not found:
             from harness import norm_exec
             found += norm_exec.explore_norm(c, 300, steps=5, props=PROPS, salt=43)["violations"]
         if found:
